@@ -73,17 +73,38 @@ def run_r1_r2(chk: Check, recs: List[dict], pid: str = "C06") -> None:
 
 
 # --------------------------------------------------------------------------- R4 node search
-def run_r4(chk: Check, prog: Program) -> None:
+def _applicable_kinds(recs) -> dict:
+    """Per rule: the node classes at which some case of the rule analysis is applicable."""
+    import re as _re
+    out: dict = {}
+    for r in recs or []:
+        if r.get("outcome") != "applied":
+            continue
+        head = (r.get("arg_shape") or "").split("(")[0]
+        names = _re.findall(r"[A-Za-z]+", head)
+        for n in names:
+            out.setdefault(r["rule"], set()).add(n + "Expression")
+    return out
+
+
+def run_r4(chk: Check, prog: Program, recs=None) -> None:
     chk.rule("C06.R4", "find_nodes/find_node over an abstract in-order sequence: indices, membership, order, stop",
              minimum=12)
     base = prog.cls("BaseRule")
-    for fname in ("find_nodes", "find_node"):
-        m = prog.find_method("BaseRule", fname)
+    applicable = _applicable_kinds(recs)
+    targets = [("BaseRule", base)] + [(c.name, c) for c in sorted(prog.rule_classes(), key=lambda c: c.name)]
+    for (rname, rcls), fname in [(t, f) for t in targets for f in ("find_nodes", "find_node")]:
+        m = prog.find_method(rname, fname)
         if m is None:
-            raise AnalysisError(f"BaseRule.{fname} vanished")
+            raise AnalysisError(f"{rname}.{fname} vanished")
 
-        def body(it: Interp, m=m, fname=fname):
-            rule = Rec(base)
+        def body(it: Interp, m=m, fname=fname, rcls=rcls, rname=rname):
+            if rname == "BaseRule":
+                rule = Rec(base)
+            else:
+                it.retained_mode += 1
+                rule = it.instantiate(rcls, [], {})
+                it.retained_mode -= 1
             seq = [it.new_summary(ALL_KINDS, "arg") for _ in range(3)]
             root = it.new_summary(ALL_KINDS, "arg")
             it.seq = seq
@@ -114,6 +135,9 @@ def run_r4(chk: Check, prog: Program) -> None:
                 return h
 
             it.hooks["BaseRule.can_apply_to"] = h_can
+            for c_ in prog.rule_classes():
+                if "can_apply_to" in c_.methods:
+                    it.hooks[f"{c_.name}.can_apply_to"] = h_can
             it.hooks["BinaryTreeNode.visit_inorder"] = h_visit("inorder")
             it.hooks["BinaryTreeNode.visit_preorder"] = h_visit("preorder")
             it.hooks["BinaryTreeNode.visit_postorder"] = h_visit("postorder")
@@ -125,8 +149,8 @@ def run_r4(chk: Check, prog: Program) -> None:
             where = m.where
             ans = getattr(it, "answers", {})
             seq = [n.cid for n in it.seq]
-            label = f"{fname} with applicable=" + "".join("T" if ans.get(c) else ("F" if c in ans else "-") for c in seq)
-            key = f"C06.R4:{fname}"
+            label = f"{rname}.{fname} with applicable=" + "".join("T" if ans.get(c) else ("F" if c in ans else "-") for c in seq)
+            key = f"C06.R4:{fname}" if rname == "BaseRule" else f"C06.R4:{rname}.{fname}"
             if p.outcome != "return":
                 chk.fail("C06.R4", key + ":raise", label, f"search raises/does not terminate: {p.exc or p.note}", where=where)
                 continue
@@ -137,6 +161,19 @@ def run_r4(chk: Check, prog: Program) -> None:
                 continue
             visited = [v[1] for v in it.visits if v[0] == "visited"]
             expected_true = [c for c in seq if ans.get(c)]
+            # a visited node that the search never asked about, although the rule is applicable at nodes of its class
+            skipped = []
+            for c in visited:
+                if c not in ans and not (fname == "find_node" and expected_true and seq.index(c) > seq.index(expected_true[0])):
+                    ks = set(it.kinds_of(it.cells[c])) & applicable.get(rname, set())
+                    if ks:
+                        skipped.append((seq.index(c), sorted(k.replace("Expression", "") for k in ks)))
+            if skipped:
+                chk.fail("C06.R4", key + ":never-asked", label,
+                         f"in-order node #{skipped[0][0]} is skipped without asking can_apply_to although {rname} is applicable at "
+                         f"{'/'.join(skipped[0][1])} nodes (rule analysis): the search does not return every applicable node",
+                         witness={"skipped": skipped}, where=where)
+                continue
             if fname == "find_nodes":
                 problems = []
                 if visited != seq:
@@ -202,7 +239,7 @@ def run(chk: Check) -> None:
                        "honours STOP (C14)", "operator may-raise table from C05"]
     recs = rule_records(chk)
     run_r1_r2(chk, recs)
-    run_r4(chk, prog)
+    run_r4(chk, prog, recs)
     # R2 takes clone() / clone_from_root() by their contract (a copy, no exception): the clauses of C13 that check the
     # source against that contract run under this property as well, since 'applying completes without raising' rests on it
     from sa.summaries import Summaries
